@@ -1,4 +1,5 @@
 import ArgoVerif.Proofs.RWLock2
+import ArgoVerif.Gen.Consts
 import ArgoVerif.Proofs.RWLock3
 import ArgoVerif.Proofs.RWLock4
 import ArgoVerif.Proofs.RWLock5
@@ -337,5 +338,10 @@ example :
        .call 3 .wrlock, .mutexLock 3, .sleep 3]).map
         (fun s => (enabled s [1, 3], enabledFor s 3, enabledFor s 1, active s 3, active s 2)) =
       some (true, false, true, true, false) := by decide
+
+
+/-! ## widths of the counters modelled as unbounded numbers (generated from the headers on every run) -/
+/-- `reader_count` is 8 bytes wide in this tree: the unbounded model agrees with the C field below 2^63 -/
+example : ArgoVerif.Gen.Consts.bytesRwlockReaderCount = 8 := by decide
 
 end ArgoVerif.Props.C10
